@@ -23,6 +23,7 @@ type Event struct {
 	O  storex.Op  `json:"o"`
 	R  storex.Res `json:"r"`
 	Ri int        `json:"ri"` // inv: 1-based line of the response within the history; Rebased adds the offset
+	H  int        `json:"h"`  // number of the history within the trace file (set by Rebased)
 }
 
 // History is one recorded concurrent history on one store instance, starting with its base event.
@@ -34,9 +35,10 @@ type History struct {
 }
 
 // Rebased returns the events with response line numbers shifted by off (position in a batch file).
-func (h History) Rebased(off int) []Event {
+func (h History) Rebased(off, num int) []Event {
 	out := make([]Event, len(h.Events))
 	for i, e := range h.Events {
+		e.H = num
 		if e.Ev == "inv" {
 			e.Ri += off
 		}
